@@ -21,6 +21,8 @@ common.use_repo_sources()
 RULE = ("schedule: exhaustive grid over (n_burnin b, thin t, n_thetas n) incl. n=0 (quick b<=6,t<=4,n<=5; thorough b<=20,t<=8,n<=10) "
         "+ out-of-domain t=0 / negative b for the tie only; the stub model starts dirty (non-zero step counter) so a missing/late reset shows; "
         "generator: grid of seeds (0, 1, 2^32-1, 2^32, >2^64, random) x n_chains 1..6 x every chain index (+ out-of-range index, negative seed for the tie); "
+        "models that already hold a generator (stub built with an rng; real SparseDrugCombo(rng=default_rng(123))), the same model object passed to sample() "
+        "2-5 times (other seed, first seed again, other chain index / n_chains) and fresh models for repeated triples in shuffled orders, all in one process; "
         "VI: stub VIModel returning n (oracle) or a different number (tie) of samples. "
         "Non-trivial: schedule with b>=1,t>=2,n>=2; generator comparisons between different n_chains or different chain indices; VI with n>=2.")
 
@@ -41,10 +43,10 @@ def _stubs():
     class CountingMCMC(MCMCModel):
         """records reset (2) / set_rng (3) / step (0) events; every step draws one number from the generator it was given"""
 
-        def __init__(self, trace, dirty=17):
+        def __init__(self, trace, dirty=17, rng=None):
             self.trace = trace
             self.steps = dirty       # steps since the last reset (dirty on purpose before the run)
-            self._rng = None
+            self._rng = rng          # a model may already hold a generator when sample() is called
             self.draws = []
             self.rng_at_first_step = None
 
@@ -183,6 +185,179 @@ def run_vi(seed, n, returned=None):
     out["draws"] = None if model.rng is None else [int(x) for x in model.rng.integers(0, 2 ** 63, K_DRAWS)]
     return out
 
+
+
+# ----------------------------------------------------------------------------------------------
+# models that already hold a generator / are reused / repeated triples in one process
+# ----------------------------------------------------------------------------------------------
+def ref_scalar(seed, key, m):
+    """the first m scalar draws (as the stub's step() makes them) of default_rng(SeedSequence(seed, spawn_key=key))"""
+    g = np.random.default_rng(np.random.SeedSequence(seed, spawn_key=tuple(key)))
+    return [int(g.integers(0, 2 ** 63)) for _ in range(m)]
+
+
+_REAL = {}
+
+
+def _real_setup():
+    """a tiny observed screen + a recording subclass of the real SparseDrugCombo"""
+    if _REAL:
+        return _REAL
+    from batchie.data import Screen, ExperimentSpace
+    from batchie.models.sparse_combo import SparseDrugCombo
+    sn = ["s0", "s0", "s0", "s1", "s1", "s1", "s0", "s1"]
+    tn = [["a", "b"], ["a", "c"], ["b", "c"], ["a", "b"], ["a", "c"], ["b", "c"], ["a", ""], ["b", ""]]
+    td = [[1., 1.], [1., 2.], [1., 2.], [1., 1.], [1., 2.], [1., 2.], [1., 0.], [1., 0.]]
+    scr = Screen(treatment_names=np.array(tn, dtype=str), treatment_doses=np.array(td), sample_names=np.array(sn, dtype=str),
+                 plate_names=np.array(["p"] * 8, dtype=str), observations=np.array([.1, .2, .3, .4, .5, .6, .7, .8]),
+                 observation_mask=np.ones(8, dtype=bool))
+    es = ExperimentSpace.from_screen(scr)
+
+    class RecordingCombo(SparseDrugCombo):
+        trace = None
+
+        def reset_model(self):
+            self.trace.append(2)
+            super().reset_model()
+
+        def set_rng(self, rng):
+            self.trace.append(3)
+            super().set_rng(rng)
+
+        def step(self):
+            self.trace.append(0)
+            super().step()
+
+    def make(trace, rng=None):
+        m = RecordingCombo(experiment_space=es, n_embedding_dimensions=2, rng=rng)
+        m.trace = trace
+        m.add_observations(scr)
+        return m
+
+    _REAL.update(make=make)
+    return _REAL
+
+
+def theta_sig(t):
+    return [repr(float(t.precision)), repr(float(t.alpha))] + [getattr(t, k).tobytes().hex() for k in ("W0", "V0", "W", "V2", "V1")]
+
+
+def gen_state(rng):
+    if rng is None:
+        return None
+    st = rng.bit_generator.state
+    return [st.get("bit_generator"), str(st.get("state")), st.get("has_uint32"), st.get("uinteger")]
+
+
+def run_calls(case):
+    """case: {"model": "stub"|"real", "preset": bool, "fresh_each": bool, "calls": [[seed, n_chains, idx], ...], "n","b","t"}
+    Runs the real sample() once per call, on ONE model object (fresh_each False) or on a new model per call, all in this process.
+    Returns one observation dict per call."""
+    import copy
+    from batchie.sampling import sample
+    _State, CountingMCMC, _VI, Holder = _stubs()
+    n, b, t = case["n"], case["b"], case["t"]
+    total = b + n * t
+    real = case["model"] == "real"
+    obs = []
+    model = None
+    for (seed, nc, idx) in case["calls"]:
+        trace = []
+        preset = np.random.default_rng(123) if case["preset"] else None
+        if model is None or case["fresh_each"]:
+            model = _real_setup()["make"](trace, preset) if real else CountingMCMC(trace, rng=preset)
+        else:
+            model.trace = trace
+        held_before = model.rng
+        o = {"call": [seed, nc, idx], "error": None}
+        twin = None
+        if real:
+            # reference: the SAME starting object state, driven by hand with the generator this call must use
+            twin = copy.deepcopy(model)
+            twin.trace = []
+        else:
+            model.draws = []
+        holder = Holder(n, trace, 1)
+        try:
+            sample(model, holder, seed=seed, n_chains=nc, chain_index=idx, n_burnin=b, thin=t)
+        except Exception as e:  # noqa
+            o["error"] = type(e).__name__
+        o["trace"] = list(trace)
+        rng = model.rng
+        o["has_rng"] = rng is not None
+        o["kept_previous_generator"] = (held_before is not None) and (rng is held_before)
+        if rng is not None:
+            ss = seed_seq_of(rng)
+            o["entropy"], o["key"] = int(ss.entropy), [int(x) for x in ss.spawn_key]
+        if real:
+            o["states"] = [theta_sig(th) for th in holder.thetas]
+            o["gen_state_after"] = gen_state(rng)
+            o["wrapped_same"] = model.wrapped_model.rng is rng
+            twin.reset_model()
+            twin.set_rng(np.random.default_rng(np.random.SeedSequence(seed, spawn_key=(idx,))))
+            want = []
+            for _ in range(b):
+                twin.step()
+            for i in range(n * t):
+                twin.step()
+                if (i + 1) % t == 0:
+                    want.append(theta_sig(twin.get_model_state()))
+            o["want_states"] = want
+            o["want_gen_state_after"] = gen_state(twin.rng)
+        else:
+            o["draws"] = list(model.draws)
+            o["want_draws"] = ref_scalar(seed, (idx,), total)
+            o["next_draws"] = None if rng is None else [int(rng.integers(0, 2 ** 63)) for _ in range(2)]
+            g = np.random.default_rng(np.random.SeedSequence(seed, spawn_key=(idx,)))
+            allw = [int(g.integers(0, 2 ** 63)) for _ in range(total + 2)]
+            o["want_next_draws"] = allw[total:]
+        obs.append(o)
+    return obs
+
+
+def oracle_calls(res, case, obs):
+    """every call: the generator in effect while stepping and afterwards is the one of THIS call's (seed, chain_index)"""
+    sig = "C17:rng-not-from-this-call"
+    first_by_triple = {}
+    for j, o in enumerate(obs):
+        c = dict(case, failing_call=j)
+        seed, nc, idx = o["call"]
+        if o["error"]:
+            res.fail("sample raises on a reused / preset model", c, o["error"], "no exception", signature="C17:rng-raises")
+            return False
+        want_tr = [2, 3] + [0] * case["b"] + ([0] * case["t"] + [1]) * case["n"]
+        if o["trace"] != want_tr:
+            res.fail("reset_model, set_rng, steps/records not called in the scheduled order on a reused / preset model", c, o["trace"][:12], want_tr[:12],
+                     signature="C17:reset-order")
+            return False
+        if not o["has_rng"] or o["kept_previous_generator"] or o.get("entropy") != seed or o.get("key") != [idx]:
+            res.fail("after sample() the model does not hold the generator derived from this call's (seed, chain_index)", c,
+                     {"kept_previous_generator": o["kept_previous_generator"], "entropy": o.get("entropy"), "spawn_key": o.get("key")},
+                     {"entropy": seed, "spawn_key": [idx]}, signature=sig)
+            return False
+        if case["model"] == "real":
+            if o["states"] != o["want_states"] or o["gen_state_after"] != o["want_gen_state_after"] or not o["wrapped_same"]:
+                res.fail("real model: recorded states / generator consumption differ from stepping the same object with default_rng(SeedSequence(seed, spawn_key=(chain_index,)))",
+                         c, {"states_equal": o["states"] == o["want_states"], "generator_state_equal": o["gen_state_after"] == o["want_gen_state_after"]},
+                         "identical", signature=sig)
+                return False
+            key = (seed, idx, "real", j == 0 or case["fresh_each"])
+            summary = o["states"]
+        else:
+            if o["draws"] != o["want_draws"] or o["next_draws"] != o["want_next_draws"]:
+                res.fail("draws made during step() are not those of default_rng(SeedSequence(seed, spawn_key=(chain_index,)))", c,
+                         {"draws": o["draws"][:3], "next": o["next_draws"]}, {"draws": o["want_draws"][:3], "next": o["want_next_draws"]}, signature=sig)
+                return False
+            key = (seed, idx, "stub", True)
+            summary = o["draws"]
+        # identical triples => identical streams, whatever happened before in this process
+        if key[3]:
+            if key in first_by_triple and first_by_triple[key] != summary:
+                res.fail("same (seed, chain_index) gives different generators", c, "differs from an earlier call with the same triple", "identical",
+                         signature="C17:rng-not-deterministic")
+                return False
+            first_by_triple.setdefault(key, summary)
+    return True
 
 # ----------------------------------------------------------------------------------------------
 # oracles (implementation only)
@@ -323,6 +498,44 @@ def run(ctx, res):
         res.count("schedule.out_of_domain")
     res.sample({"kind": "schedule", "n": 2, "b": 1, "t": 2, "impl_trace": run_mcmc(2, 1, 2)["trace"], "positions": run_mcmc(2, 1, 2)["positions"]})
 
+    # ---------- A2. models that already hold a generator / reused models / repeated triples -------
+    crng = ctx.subrng("calls")
+    sd = seeds_for(ctx)
+    call_cases = []
+    for mdl in ("stub", "real"):
+        s1, s2 = sd[1], sd[4]
+        # (a)/(b) a model constructed with a generator, first call
+        call_cases.append({"kind": "calls", "model": mdl, "preset": True, "fresh_each": True, "n": 2, "b": 1, "t": 2,
+                           "calls": [[s1, 3, 1], [s1, 3, 1], [s2, 2, 0]]})
+        # (c) the same object a second and third time: other seed, first seed again, other chain index, other n_chains
+        call_cases.append({"kind": "calls", "model": mdl, "preset": True, "fresh_each": False, "n": 2, "b": 1, "t": 2,
+                           "calls": [[s1, 3, 1], [s2, 3, 1], [s1, 3, 1], [s1, 3, 2], [s1, 5, 1]]})
+        call_cases.append({"kind": "calls", "model": mdl, "preset": False, "fresh_each": False, "n": 1, "b": 0, "t": 1,
+                           "calls": [[s1, 2, 0], [s1, 2, 0], [s2, 4, 3], [s1, 4, 0]]})
+        # (d) fresh models, triples in several orders with repeats, one process
+        for _ in range(ctx.scale(2, 12) if mdl == "stub" else ctx.scale(1, 4)):
+            pool = [[crng.choice(sd[:8]), nc, crng.randrange(nc)] for nc in (1, 2, 3, 5) for _r in range(2)]
+            seq = pool + [list(crng.choice(pool)) for _r in range(6)]
+            crng.shuffle(seq)
+            call_cases.append({"kind": "calls", "model": mdl, "preset": crng.random() < 0.5, "fresh_each": crng.random() < 0.6,
+                               "n": crng.choice([1, 2]), "b": crng.choice([0, 1, 3]), "t": crng.choice([1, 2]), "calls": seq})
+    for case in call_cases:
+        obs_c = run_calls(case)
+        res.evaluations += len(obs_c)
+        res.count("calls.%s.%s.%s" % (case["model"], "preset" if case["preset"] else "norng", "fresh" if case["fresh_each"] else "reused"), len(obs_c))
+        oracle_calls(res, case, obs_c)
+        res.nontrivial.add(("calls", case["model"], case["preset"], case["fresh_each"], tuple(tuple(c) for c in case["calls"])))
+        for j, o in enumerate(obs_c):
+            # tie: the real call sequence reset -> set_rng -> steps of THIS call against the generated trace, and the spawn key
+            lines.append("schedule %d %d %d" % (case["n"], case["b"], case["t"]))
+            expect.append("%d %s" % (0 if o["error"] is None else 1, show_list(o["trace"])))
+            meta.append({"kind": "calls-trace", "case": case, "call": j})
+            if o.get("entropy") is not None:
+                lines.append("chainrng %d %d %d" % tuple(o["call"]))
+                expect.append("%d %s" % (o["entropy"], show_list(o["key"])))
+                meta.append({"kind": "calls-rng", "case": case, "call": j})
+    res.sample({"kind": "calls", "model": "real", "preset": True, "fresh_each": False, "calls": call_cases[4]["calls"]})
+
     # ---------- B. generator -----------------------------------------------------------------
     seeds = seeds_for(ctx)
     cmax = ctx.scale(5, 8)
@@ -447,7 +660,11 @@ def replay(ctx, case, res):
     if k == "schedule":
         oracle_schedule(res, case, run_mcmc(case["n"], case["b"], case["t"]))
     elif k == "rng":
+        # twice in one process: a stream that depends on earlier calls shows on the second
         oracle_rng_single(res, case, rng_observe(case["seed"], case["n_chains"], case["idx"]))
+        oracle_rng_single(res, case, rng_observe(case["seed"], case["n_chains"], case["idx"]))
+    elif k == "calls":
+        oracle_calls(res, case, run_calls(case))
     elif k == "rng_pair":
         oracle_rng_pair(res, case, rng_observe(case["seed_a"], case["n_a"], case["i_a"]), rng_observe(case["seed_b"], case["n_b"], case["i_b"]))
     elif k == "vi":
